@@ -159,8 +159,9 @@ Definition vring_fd_request (buf : list N) (files : option (list N)) : rresult (
   else
     let v := VhostUserU64_value (VhostUserU64_read buf 0) in
     let has_fd := N.land v 256 =? 0 in
+    let no_files := match files with Some (_ :: _) => false | _ => true end in
     let file := take_single files in
-    if (has_fd && o_is_none file) || (negb has_fd && o_is_some file) then RErr EInvalidMessage
+    if (has_fd && o_is_none file) || (negb has_fd && negb no_files) then RErr EInvalidMessage
     else ROk (cast 8 v, file).
 
 Definition dispatch (cfg : be_cfg) (s : be_state) (o : N) (h : VhostUserMsgHeader) (files : option (list N))
